@@ -195,11 +195,18 @@ Definition light_of (c : case18) : case_mut :=
   let '((_, asrt, h0, o, fs, _, _, _), (r, h1, l)) := c in (false, asrt, h0, o, fs, r, h1, l).
 Definition same_obs (c : case18) : bool :=
   let a := fst c in let b := light_of c in
-  result_eqb unit_eqb (c_out a) (c_out b) && heap_eqb (c_h1 a) (c_h1 b)
-  && match c_log a, c_log b with
-     | Some x, Some y => log_eqb x y
-     | None, None => true
-     | _, _ => false
-     end.
+  result_eqb unit_eqb (c_out a) (c_out b)
+  && (if is_recursion (c_out a) then
+        (* where an unbounded re-entrancy is cut off depends on the interpreter's stack depth, which a
+           refactoring of one class changes: only the outcome class (and the state, when every nested
+           level is a no-op) is compared - the same rule as in [model_agrees] *)
+        (if stable_recursion (c_faults a) then heap_eqb (c_h1 a) (c_h1 b) else true)
+      else
+        heap_eqb (c_h1 a) (c_h1 b)
+        && match c_log a, c_log b with
+           | Some x, Some y => log_eqb x y
+           | None, None => true
+           | _, _ => false
+           end).
 Definition corr_C18 (cs : list case18) : report :=
   mk_report (map (fun c => (model_agrees (fst c) && model_agrees (light_of c), same_obs c)) cs).
